@@ -30,6 +30,9 @@ Readings (the weaker one where the statement leaves a choice):
 * after the section marker every one-'=' line that is not a run parameter is exogenous.
 * comment-only lines that merely mention the marker word are not generated; the marker is the
   canonical line the model emits.
+* a run-parameter line with a malformed value (MaxTime not an integer literal, Err_Tolerance not a number) is
+  "reported" when the call raises (any exception) or adds a message; integral spellings such as 3.0 / 1e2 are
+  not generated (the statement does not say whether they are malformed).
 
 Signatures: a violating case that contains free text with the marker word is re-run with that text
 replaced by plain words; if the violation disappears the signature is
@@ -37,7 +40,8 @@ replaced by plain words; if the violation disappears the signature is
 otherwise, if it disappears when also the free text with line-separator characters (classes sep*) is
 replaced: 'line-separator-character-in-free-text';
 otherwise: 'default-t-added-although-user-defines-time-axis' when the block defines t / t_minus_1 and
-the observed simultaneous list nevertheless holds t = k; else the signature spells the line forms.  Several calls on one object: 'state-carried-over-from-an-earlier-ParseString-call'
+the observed simultaneous list nevertheless holds t = k; else the signature spells the line forms.  A block with a malformed run-parameter value (MaxTime = 2.5, Err_Tolerance = CAT) that
+the call accepts without raising or reporting: 'malformed-run-parameter-value-accepted'.  Several calls on one object: 'state-carried-over-from-an-earlier-ParseString-call'
 when every block is judged fine on a fresh parser object.  Model events: 'model-free-text-not-inert:<classes>' (the twin
 differs in the free texts only).
 """
@@ -54,6 +58,7 @@ DRIFT = {'o': 'list_or_message_order'}
 SIG_MARKER = 'marker-word-in-trailing-comment'
 SIG_TIME = 'default-t-added-although-user-defines-time-axis'
 SIG_SEP = 'line-separator-character-in-free-text'
+SIG_PARAM = 'malformed-run-parameter-value-accepted'
 SIG_REUSE = 'state-carried-over-from-an-earlier-ParseString-call'
 SIG_MODEL = 'model-free-text-not-inert:'       # + the classes of the free texts of the model
 TAG_CLASSES = ('exoU', 'exoM', 'tagline', 'pmax', 'ptol')
@@ -146,7 +151,7 @@ def render(f, variant=0):
         code = f['v'] + EQ[sp] + f['r'] + LAG[kind]
     elif kind == 'ic':
         code = f['v'] + '(0)' + EQ[sp] + f['r']
-    elif kind in ('maxtime', 'errtol'):
+    elif kind in ('maxtime', 'errtol', 'badmax', 'baderr'):
         code = f['v'] + EQ[sp] + f['r']
     elif kind == 'noeq':
         code = spaced(f['r'], sp)
@@ -264,7 +269,13 @@ def judge_reuse_gen(rep, items):
         for _b in blocks:
             ok_fresh = ok_fresh and not fv[n].startswith('property')
             n += 1
-        sig = SIG_REUSE if ok_fresh else reuse_signature(blocks)
+        if ok_fresh:
+            sig = SIG_REUSE
+        elif 'R' in letters and any(ev['obs']['ok'] and any(f['kind'] in ('badmax', 'baderr') for f in ev['lines'])
+                                    for ev in traces[i][1]):
+            sig = SIG_PARAM
+        else:
+            sig = reuse_signature(blocks)
         case = {'blocks': blocks, 'variant': variant, 'texts': [render_block(b, variant) for b in blocks],
                 'observed': traces[i][1]}
         for c in letters:
@@ -406,6 +417,8 @@ def judge_blocks_gen(rep, items):
             sig = SIG_MARKER
         elif cure_sep.get(i):
             sig = SIG_SEP
+        elif 'R' in letters and ev['obs']['ok'] and any(f['kind'] in ('badmax', 'baderr') for f in forms):
+            sig = SIG_PARAM
         elif user_time(forms) and {'var': 't', 'rhs': 'k'} in ev['obs']['endo']:
             sig = SIG_TIME
         else:
